@@ -36,6 +36,15 @@ def expr(e):
         raise Reject("comparison " + dump(e))
     if isinstance(e, ast.Call):
         f = e.func
+        # str(x).endswith("!")  |  x.endswith("!")
+        if isinstance(f, ast.Attribute) and f.attr == "endswith" and len(e.args) == 1 and is_const(e.args[0], "!"):
+            v = f.value
+            if isinstance(v, ast.Call) and is_name(v.func, "str") and len(v.args) == 1 \
+                    and isinstance(v.args[0], ast.Name):
+                return "(str_last_is_bang %s)" % v.args[0].id
+            if isinstance(v, ast.Name):
+                return "(last_is_bang %s)" % v.id
+            raise Reject("endswith on " + dump(v))
         if is_name(f, "isinstance") and len(e.args) == 2 and isinstance(e.args[0], ast.Name) \
                 and is_name(e.args[1], "int"):
             return "(is_int %s)" % e.args[0].id
@@ -55,6 +64,16 @@ def expr(e):
     raise Reject("expression " + dump(e))
 
 
+def rebind(st):
+    """x = str(x)  ->  ('x', '(py_str x)')"""
+    if isinstance(st, ast.Assign) and len(st.targets) == 1 and isinstance(st.targets[0], ast.Name):
+        v = st.value
+        if isinstance(v, ast.Call) and is_name(v.func, "str") and len(v.args) == 1 \
+                and is_name(v.args[0], st.targets[0].id):
+            return st.targets[0].id, "(py_str %s)" % st.targets[0].id
+    return None
+
+
 def _is_minus1(s):
     return isinstance(s, ast.UnaryOp) and isinstance(s.op, ast.USub) and is_const(s.operand, 1)
 
@@ -71,7 +90,7 @@ def generate(repo):
         if fn.args.vararg or fn.args.kwarg or fn.args.kwonlyargs or fn.args.defaults:
             raise Reject("signature of " + name)
         args = [a.arg for a in fn.args.args]
-        body = returning_body(fn.body, expr)
+        body = returning_body(fn.body, expr, rebind=rebind)
         out.append("Definition %s %s : %s :=\n  %s.\n" % (
             name, " ".join("(%s : ival)" % a for a in args), RET[name], body))
     return "\n".join(out)
